@@ -71,7 +71,7 @@ func C28(c *core.Ctx) {
 		"-1/=/+1), namespace offsets 0/3 with banned namespaces, for Set, Delete and Get: err != nil must equal the statement's predicate, a rejected call leaves the " +
 		"transaction unaffected (earlier writes commit and read back, rejected key absent), accepted writes round trip; part B: for memtable sizes 1/2/4 MiB (ValueThreshold " +
 		"raised to the batch limit so values count in full) transactions of n=1..12 entries whose accounted size sweeps every value in the last 64 bytes below the " +
-		"largest accepted size, and entry counts in the last 4 below the count limit, committed at small and at 19-digit managed timestamps: once every Set was accepted, " +
+		"largest accepted size, and entry counts in the last 4 below the count limit, committed at small and at 19-digit managed timestamps, plus transactions writing the same 3 keys up to the count limit and managed write batches holding 2x the count limit of versions of 3 keys: once every Set was accepted, " +
 		"Commit must not return ErrTxnTooBig; part C: the same guarantee when the value threshold moves between the Sets and the Commit (VLogPercentile with other commits of larger values in between; in-memory database with a DropAll in between): hundreds of values that were accounted as value-log pointers when they were set; distinct = (part, mode, n, boundary class) cases")
 	work := c.WorkDir()
 	defer os.RemoveAll(work)
@@ -320,6 +320,54 @@ func C28(c *core.Ctx) {
 					c.Violation("C28|B|count|accepted-then-too-big", fmt.Sprintf("%d accepted entries (limit %d) but Commit returned ErrTxnTooBig", accepted, maxCount), nil)
 				}
 				c.Distinct(fmt.Sprintf("B|count|managed=%v|d=%d", managed, d))
+			}
+			// the same key again and again in one transaction (the pending write is replaced, or - at
+			// another version in managed mode - kept as a duplicate that is sent along)
+			{
+				txn := env.begin(true)
+				accepted := 0
+				for i := 0; i < maxCount-3; i++ {
+					if err := txn.Set([]byte(fmt.Sprintf("same%d", i%3)), []byte(fmt.Sprintf("v%d", i))); err != nil {
+						break
+					}
+					accepted++
+				}
+				c.Eval(1)
+				if cerr := env.commit(txn); errors.Is(cerr, badger.ErrTxnTooBig) {
+					c.Violation("C28|B|same-key|accepted-then-too-big", fmt.Sprintf("%d accepted writes of 3 keys (limit %d) but Commit returned ErrTxnTooBig", accepted, maxCount), nil)
+				}
+				c.Distinct(fmt.Sprintf("B|same-key|managed=%v", managed))
+			}
+			if managed {
+				wb := db.NewManagedWriteBatch()
+				nv := 2*maxCount + 7
+				var serr error
+				for i := 0; i < nv && serr == nil; i++ {
+					serr = wb.SetEntryAt(badger.NewEntry([]byte(fmt.Sprintf("dup%d", i%3)), []byte(fmt.Sprintf("v%d", i))), uint64(1000+i))
+				}
+				ferr := wb.Flush()
+				c.Eval(1)
+				if serr == nil && errors.Is(ferr, badger.ErrTxnTooBig) {
+					c.Violation("C28|B|batch-versions|accepted-then-too-big", fmt.Sprintf("%d versions of 3 keys were all accepted by a managed write batch (count limit %d) but Flush returned ErrTxnTooBig", nv, maxCount), nil)
+				} else if serr != nil || ferr != nil {
+					c.Violation("C28|B|batch-versions|error", fmt.Sprintf("managed write batch of %d versions: SetEntryAt=%v Flush=%v", nv, serr, ferr), nil)
+				} else {
+					// every version must read back
+					missing := 0
+					for i := 0; i < nv; i++ {
+						rt := db.NewTransactionAt(uint64(1000+i), false)
+						it, err := rt.Get([]byte(fmt.Sprintf("dup%d", i%3)))
+						if err != nil || it.Version() != uint64(1000+i) {
+							missing++
+						}
+						rt.Discard()
+					}
+					c.Count("sizes.batch_versions_read_back", int64(nv-missing))
+					if missing > 0 {
+						c.Violation("C28|B|batch-versions|lost", fmt.Sprintf("%d of %d accepted versions are not readable at their timestamp", missing, nv), nil)
+					}
+				}
+				c.Distinct("B|batch-versions")
 			}
 			_ = db.Close()
 			_ = os.RemoveAll(dir)
